@@ -89,6 +89,11 @@ structure Tabs where
   slots : List (Path × String) := []
   /-- the values (payloads) of the model-level references (`SM.St.globals` keeps their names) -/
   gv : List (String × Nat) := []
+  /-- how a declared slot is SPELLED by path: `(current path of the slot's space, the path it was declared
+  under)`; no entry: the current path.  Only `space.rename` adds entries (`Edit/MachineRename.lean`): a formula
+  that spells `S.x` reaches the slot through an object-valued reference to the space, which follows the OBJECT
+  through a rename -/
+  spell : List (Path × Path) := []
 deriving Repr
 
 def Tabs.cid (t : Tabs) (q : Path) (n : String) : CellId := t.ctab.idxOf (q, n)
@@ -141,14 +146,20 @@ def cellsOf (t : Tabs) (st : SM.St) (q : Path) : List CellId :=
 def refsOf (t : Tabs) (st : SM.St) (q : Path) : List RefId :=
   (conts st .refs q).map (fun e => t.rid q e.1)
 
+/-- the path by which the slots of the space that is NOW at `q` are spelled (`Tabs.spell`) -/
+def spellOf (sp : List (Path × Path)) (q : Path) : Path :=
+  match sp.find? (fun e => e.1 == q) with
+  | some e => e.2
+  | none => q
+
 /-- is `x` a spelling, in a formula of space `q`, of the attribute path to the slot `e`: `S.x` (`S` the
 path of the space from the model, with dots) or `_space.x` for the space of the formula -/
-def spelled (q : Path) (e : Path × String) (x : String) : Bool :=
-  x == ".".intercalate e.1 ++ "." ++ e.2 || (e.1 == q && x == "_space." ++ e.2)
+def spelled (sp : List (Path × Path)) (q : Path) (e : Path × String) (x : String) : Bool :=
+  x == ".".intercalate (spellOf sp e.1) ++ "." ++ e.2 || (e.1 == q && x == "_space." ++ e.2)
 
 /-- the DECLARED slot the name `x` spells in space `q` (no slot declared: every name is a plain name) -/
 def qualOf (t : Tabs) (q : Path) (x : String) : Option (Path × String) :=
-  t.slots.find? (fun e => spelled q e x)
+  t.slots.find? (fun e => spelled t.spell q e x)
 
 /-- the payload of the model-level reference `x` -/
 def gpay (t : Tabs) (st : SM.St) (x : String) : Option Nat :=
